@@ -9,6 +9,15 @@
 //!   locseq <d|r> <text> <op>...       drive a LinearLocator directly: `l<off>` locate, `o<off>`
 //!                                     locate_only, `e<off>` locate_error; RandomLocator on the same offsets
 //!   spec <text> <off>...              RandomLocator on each offset (validates the Lean reference definition)
+//!   tree <mode> <src>                 `{:?}` of the parsed tree (tools/props/c13.py turns it into the generic tree
+//!                                     it attaches to `fold` requests), `noparse` otherwise
+//!   fold <d|r> <mode> <src> <tree>... parse, fold with both locators: the calls the real LinearLocator made
+//!                                     (`ops=`), whether they form a forward history (`fwd=`), whether the fold
+//!                                     was forward, panic-free and both locators stored the same location in
+//!                                     every node (`ordered=`), and the located ranges of every node
+//!                                     (`nodes=` LinearLocator, `rnd=` RandomLocator) in derive(Debug) order.
+//!                                     The tree words are for the Lean driver, which answers the same line from
+//!                                     its model of the fold (generated fold program + overrides).
 //! `d|r` names the build flavour the request is meant for (debug assertions + overflow checks, or not).
 use pvh::*;
 use rustpython_ast::Fold;
@@ -305,6 +314,91 @@ fn trace(mode: Mode, src: &str, ops: &[&str]) -> String {
     format!("ok {} fwd={}", got.len(), fwd)
 }
 
+/// forward history: offsets on character boundaries, not between CR and LF, never behind the cursor
+/// (which starts after a leading BOM); `locate_only` does not move it
+fn is_forward(src: &str, events: &[verif_trace::Event]) -> bool {
+    let b = src.as_bytes();
+    let mut cursor: usize = if src.starts_with('\u{feff}') { 3 } else { 0 };
+    for e in events {
+        let o = e.offset as usize;
+        let in_domain = src.is_char_boundary(o) && !(o > 0 && o < b.len() && b[o - 1] == b'\r' && b[o] == b'\n');
+        if !in_domain || o < cursor {
+            return false;
+        }
+        if !e.only {
+            cursor = o;
+        }
+    }
+    true
+}
+
+fn fold_op(mode: Mode, src: &str) -> String {
+    let tree = match guard(|| parse(src, mode, "<pv>")) {
+        Some(Ok(t)) => t,
+        _ => return "parse-failed".to_string(),
+    };
+    let plain: Vec<(String, String)> = scan_ranges(&format!("{:?}", tree))
+        .into_iter()
+        .filter(|(_, v)| v != "()")
+        .collect();
+    verif_trace::drain();
+    let t1 = tree.clone();
+    let lin = guard(move || {
+        let mut l = LinearLocator::new(src);
+        l.fold(t1).unwrap()
+    });
+    let events = verif_trace::drain();
+    let rnd = guard(move || {
+        let mut l = RandomLocator::new(src);
+        l.fold(tree).unwrap()
+    });
+    let located = |t: &rustpython_ast::located::Mod| -> Vec<String> {
+        scan_ranges(&format!("{:?}", t))
+            .into_iter()
+            .filter(|(_, v)| v != "()")
+            .map(|(_, v)| parse_source_range(&v).unwrap_or_else(|| "unparsable".into()))
+            .collect()
+    };
+    let lin_r = lin.as_ref().map(located);
+    let rnd_r = rnd.as_ref().map(located);
+    let fwd = is_forward(src, &events);
+    let same = match (&lin_r, &rnd_r) {
+        (Some(a), Some(b)) => a == b && a.len() == plain.len(),
+        _ => false,
+    };
+    let ops: Vec<String> = events
+        .iter()
+        .map(|e| format!("{}{}", if e.only { "o" } else { "l" }, e.offset))
+        .collect();
+    let dash = |v: Vec<String>| if v.is_empty() { "-".to_string() } else { v.join(";") };
+    let nodes = match &lin_r {
+        Some(l) => dash(
+            plain
+                .iter()
+                .zip(l.iter())
+                .map(|((_, p), x)| {
+                    let (a, b) = parse_text_range(p).unwrap_or((u32::MAX, u32::MAX));
+                    format!("{}-{}:{}", a, b, x)
+                })
+                .collect(),
+        ),
+        None => "-".to_string(),
+    };
+    let rnds = match rnd_r {
+        Some(r) => dash(r),
+        None => "panic".to_string(),
+    };
+    format!(
+        "ops={} fwd={} ordered={} lin={} nodes={} rnd={}",
+        dash(ops),
+        fwd,
+        fwd && same,
+        if lin.is_some() { "ok" } else { "panic" },
+        nodes,
+        rnds
+    )
+}
+
 fn locseq(text: &str, ops: &[&str]) -> String {
     let mut lin = LinearLocator::new(text);
     let mut rnd = RandomLocator::new(text);
@@ -378,6 +472,18 @@ fn handle(ws: &[&str]) -> String {
         ["trace", f, m, t, ops @ ..] => match (mode_of(m), unhex_str(t)) {
             _ if *f != flavour() => "wrong-build".to_string(),
             (Some(m), Some(t)) => trace(m, &t, ops),
+            _ => bad(),
+        },
+        ["tree", m, t] => match (mode_of(m), unhex_str(t)) {
+            (Some(m), Some(t)) => match guard(|| parse(&t, m, "<pv>")) {
+                Some(Ok(tree)) => format!("{:?}", tree),
+                _ => "noparse".to_string(),
+            },
+            _ => bad(),
+        },
+        ["fold", f, m, t, ..] => match (mode_of(m), unhex_str(t)) {
+            _ if *f != flavour() => "wrong-build".to_string(),
+            (Some(m), Some(t)) => fold_op(m, &t),
             _ => bad(),
         },
         ["locseq", f, t, ops @ ..] => match unhex_str(t) {
